@@ -39,7 +39,8 @@ Record obs := mkobs {
   o_raised : bool;      (* AssertionError "Cholesky only valid for PSD" *)
   o_real : bool;        (* real dtype: sign must be exactly +1 or -1 *)
   o_sign : qi;          (* the returned sign, exactly (floats are dyadic rationals) *)
-  o_elog : Qc;          (* exp(logabs) *)
+  o_elog : Qc;          (* exp(logabs - o_k * ln 2): logabs itself may be far outside the range where exp is representable *)
+  o_k : Z;
   o_lsgn : Z;           (* sign of logabs *)
   o_tolm : Qc;          (* relative tolerance on exp(2 logabs) *)
   o_tols : Qc }.        (* tolerance on the complex phase *)
@@ -52,11 +53,12 @@ Definition check_sign (o : obs) (s : sd) : bool :=
     let w := o_sign o in
     let d := qisub (qimul w w) (sd_sq s) in
     qcleb (qinorm2 d) (o_tols o * o_tols o)%Qc && qcltb 0 (qire (qimul (qiconj w) (fst s))).
+Definition qc4pow (k : Z) : Qc := match k with Z0 => 1%Qc | Zpos p => qcz (Z.pow 4 (Zpos p)) | Zneg p => (/ qcz (Z.pow 4 (Zpos p)))%Qc end.
 Definition check_mag (o : obs) (m : sd) : bool :=
   let z := fst m in
   let m2 := (qire z * qire z * snd m)%Qc in         (* the squared magnitude *)
   Qc_eq_bool (qiim z) 0 && qcltb 0 (qire z) && qcltb 0 (snd m)
-  && qcleb (qcabs (o_elog o * o_elog o - m2)) (o_tolm o * m2)%Qc
+  && qcleb (qcabs (o_elog o * o_elog o * qc4pow (o_k o) - m2)) (o_tolm o * m2)%Qc
   && (if qcleb (qcabs (m2 - 1)) (o_tolm o + o_tolm o)%Qc then true else Z.eqb (o_lsgn o) (qcsgn (m2 - 1)%Qc)).
 Record case := mkcase { c_fl : flags; c_alg : lalg; c_e : sop (R:=qi) sd; c_obs : obs }.
 Definition check (c : case) : bool :=
